@@ -1,7 +1,10 @@
 import Flatland.TreeJson
+import Flatland.C10Compound
+import Flatland.C10Flat
+import Flatland.Run.FlatCommon
 open Lean Flatland.J
 namespace Flatland.Run.C10
-open Flatland.Tree Flatland.C08 Flatland.TreeJson
+open Flatland.Tree Flatland.C08 Flatland.TreeJson Flatland.C10.Compound
 
 /-- the mapping at the root as `dict.items()` shows it: key, label, class, name, parent, value -/
 def view (s : St) (_r : Option StepObs) : Json :=
@@ -13,7 +16,112 @@ def view (s : St) (_r : Option StepObs) : Json :=
       rawJson (valueOf c)])
   obj [("items", Json.arr rows.toArray)]
 
+/-! ### Compound roots (`"k": "date"`): the class is PREPARED by the model (`prepare`) from the fields the
+case says the user supplied (`"supplied": k` — the first `k` entries of `subs`; the class ids of the
+generated fields are those of the remaining entries), and every call goes through `compoundStep`. -/
+
+def parseCompoundClass (j : Json) : Except String Schema := do
+  let subs ← (← afld j "subs").mapM parseSchema
+  let k := (nat (fldD j "supplied" (Json.num 0))).toOption.getD 0
+  let cid (i : Nat) : Nat := ((subs[i]?).map (fun s => s.info.cid)).getD 0
+  let info : SInfo := {
+    cid := ← nfld j "cid", isa := [], kind := .dict,
+    name := ← optOf chars (← fld j "name"),
+    optional := ← bfld j "opt" }
+  let dflt ← parseRaw (← fld j "default")
+  return preparedClass info dflt (subs.take k) (cid 0, cid 1, cid 2)
+
+/-- `execOp` of TreeJson with `stepAtC` in place of `stepAt` -/
+def execOpC (compounds : List Nat) (s : St) (o : OpSpec) : StepObs :=
+  match materialise s o with
+  | .error "UNSUPPORTED" => ⟨{ s with unsupported := true }, Json.str "unsupported", none, []⟩
+  | .error "OBSERVE" => ⟨s, Json.str "ok", none, []⟩
+  | .error "TYPEERROR" => ⟨s, obj [("exc", Json.str "TypeError")], none, []⟩
+  | .error reason => ⟨s, obj [("skip", Json.str reason)], none, []⟩
+  | .ok (target, op, s1) =>
+    match stepAtC dateExplode compounds s1.root target.id op s1.next with
+    | none => ⟨s1, obj [("skip", Json.str "notarget")], none, []⟩
+    | some r =>
+      let unsup := match r.out with | .exc .unsupported => true | _ => false
+      let s2 : St := { s1 with root := r.node, next := r.next, unsupported := s1.unsupported || unsup }
+      let s3 := (s2.collectDetached s1.root r.detached).observe
+      let s4 := match r.out with
+        | .node n => s3.see n.id
+        | _ => s3
+      ⟨s4, outJson s4 r.out, some target.id, (argElems op).map Node.id⟩
+
+def stepOut (r : StepR) : Json :=
+  match r.out with
+  | .ok => Json.str "ok"
+  | .bool b => obj [("b", Json.bool b)]
+  | .exc e => obj [("exc", Json.str (excName e))]
+  | _ => Json.str "ok"
+
+def initCompound (cls : Schema) (route : String) (value : Raw) : Except String (St × Json) := do
+  let b := cblank cls 1
+  let start (n : Node) (next : Nat) (out : Json) : St × Json := (St.observe { root := n, next := next }, out)
+  let after (r : StepR) (out : Json) : St × Json :=
+    match r.out with
+    | .exc .unsupported => ({ root := r.node, next := r.next, unsupported := true }, Json.str "unsupported")
+    | _ => start r.node r.next out
+  match route with
+  | "ctor" => return start b.1 b.2 (Json.str "ok")
+  | "ctor_value" =>
+    -- `cls(value)`: `Compound.set` never lets an exception of `explode` out
+    let r := compoundStep dateExplode b.1 (.set value none) b.2
+    return after r (Json.str "ok")
+  | "set" =>
+    let r := compoundStep dateExplode b.1 (.set value none) b.2
+    return after r (stepOut r)
+  | "from_defaults" =>
+    let r := compoundStep dateExplode b.1 .setDefault b.2
+    return after r (stepOut r)
+  | "set_default" =>
+    let r := compoundStep dateExplode b.1 .setDefault b.2
+    return after r (stepOut r)
+  | r => throw s!"bad route {r}"
+
+def runCompound (j : Json) : Except String Json := do
+  let sj ← fld j "schema"
+  let cls ← parseCompoundClass sj
+  let init ← fld j "init"
+  let ops ← (← afld j "ops").mapM parseOp
+  let (s0, out0) ← initCompound cls (← sfld init "route") (← parseRaw (fldD init "value" .null))
+  if s0.unsupported then return obj [("unsupported", Json.bool true)]
+  let mut s := s0
+  let mut steps : Array Json := #[obj [("out", out0), ("view", view s0 none)]]
+  for o in ops do
+    let r := execOpC [cls.info.cid] s o
+    s := r.st
+    if s.unsupported then return obj [("unsupported", Json.bool true)]
+    steps := steps.push (obj [("out", r.out), ("view", view s (some r))])
+  return obj [("steps", Json.arr steps)]
+
+/-! ### the flat route (`"flat"` cases): the key skeleton of `set_flat` on a blank / pre-set mapping -/
+
+partial def skelJson : Flatland.C10.Flat.Skel → Json
+  | .leaf => Json.null
+  | .dict ms => obj [("d", Json.arr (ms.map (fun p => Json.arr #[ofChars p.1, skelJson p.2])).toArray)]
+  | .seq ms => obj [("l", Json.arr (ms.map skelJson).toArray)]
+
+def runFlat (fj : Json) : Except String Json := do
+  let s ← Flatland.Run.FlatCommon.parseSchema (← fld fj "schema")
+  let sep ← cfld fj "sep"
+  let nd ← (← afld fj "nd").mapM nat
+  let env : Flatland.Flat.Env := {
+    norm := fun _ t => t, compose := fun _ _ => [], joinedMembers := fun _ _ => [],
+    ndZeros := nd, maxDigits := ← nfld fj "maxdigits" }
+  let rounds ← (← afld fj "rounds").mapM Flatland.Run.FlatCommon.parsePairs
+  let mut e := Flatland.Flat.blank s
+  let mut out : Array Json := #[skelJson (Flatland.C10.Flat.skeleton e)]
+  for ps in rounds do
+    e := Flatland.Flat.setFlat env sep s e (Flatland.Flat.wrap ps)
+    out := out.push (skelJson (Flatland.C10.Flat.skeleton e))
+  return obj [("skeletons", Json.arr out)]
+
 def run (j : Json) : Except String Json := do
+  if let .ok fj := fld j "flat" then return ← runFlat fj
+  if let .ok (Json.str "date") := fld (← fld j "schema") "k" then return ← runCompound j
   runCase (← parseCase j) view
 
 end Flatland.Run.C10
